@@ -71,7 +71,9 @@ class HCell:
         head = '%d %s %s' % (cmap.get(self.num, self.num), mat, render_expr(renum_expr(self.expr, smap, cmap)))
         parts = {}
         if self.u:
-            parts['u'] = 'u=%d' % umap.get(self.u, self.u)
+            # a negative universe number means the same universe (MCNP: the cell is known not to be cut by the
+            # container, which the reference does not rely on)
+            parts['u'] = 'u=%s%d' % ('-' if getattr(self, 'u_negative', False) else '', umap.get(self.u, self.u))
         if self.lat:
             parts['lat'] = 'lat=%d' % self.lat
         if self.fill is not None or self.array is not None:
